@@ -6,6 +6,7 @@ import (
 	"flag"
 	"fmt"
 	"math"
+	"os"
 	"reflect"
 	"strings"
 
@@ -43,7 +44,13 @@ func Main(defFlags string, defRT, defIR, defOracle bool, defPretouch int) {
 	ir := flag.Bool("ir", defIR, "IR lines")
 	oracle := flag.Bool("oracle", defOracle, "encoding/json lines")
 	pretouch := flag.Int("pretouch", defPretouch, "Q lines: Pretouch with compile options, then Marshal (option sets per random case; the corpus gets 6)")
+	shard := flag.String("shard", "0/1", "k/m: run only the cases whose index is k modulo m (the check runs the m shards in parallel)")
 	flag.Parse()
+	sk, sm := 0, 1
+	if _, err := fmt.Sscanf(*shard, "%d/%d", &sk, &sm); err != nil || sm < 1 || sk < 0 || sk >= sm {
+		fmt.Fprintln(os.Stderr, "bad -shard", *shard)
+		os.Exit(2)
+	}
 
 	w := out.Create(*outp)
 	defer w.Close()
@@ -66,6 +73,9 @@ func Main(defFlags string, defRT, defIR, defOracle bool, defPretouch int) {
 		}
 	}
 	for i := lo; i < hi; i++ {
+		if i%sm != sk {
+			continue
+		}
 		var c *Case
 		if i < len(wit) {
 			c = wit[i]
